@@ -335,7 +335,27 @@ def run(ctx):
             else:
                 r5.bad('background-excludes-scheduled', 'a program associated with a task can also run as a background program', loc=fn.loc(ps[0][0]))
         else:
-            r5.bad('background-excludes-scheduled', 'execute_background_programs shape not recognised', loc=fn.loc(0))
+            # iterator form: `.filter(|(name, _)| !scheduled.contains_key(name))` feeding the collected background list
+            okf = None
+            for cid in fx.closures_of(a):
+                cf = F(fx.fns[cid])
+                cks = cf.calls(lambda n: n.endswith('::contains_key'))
+                if not cks:
+                    continue
+                used = any(o[0] == 'agg' and o[1] == 'closure:' + cid for b2, nm2, t2 in fn.calls(lambda n: n.endswith('Iterator::filter')) for a2 in t2['a'] for o in operand_origins(fn, a2))
+                negated = False
+                for (db, dk, drv) in cf.defs.get(0, []):
+                    if dk == 'A' and drv[0] == 'un' and drv[1] == 'Not' and any(o[0] == 'call' and o[2].endswith('::contains_key') for o in operand_origins(cf, drv[2])):
+                        negated = True
+                    elif dk == 'A':
+                        negated = negated and False
+                okf = used and negated and len(cf.defs.get(0, [])) == 1
+            if okf:
+                r5.ok('background-excludes-scheduled', detail='filter closure keeps exactly the programs not in the scheduled set')
+            elif okf is None:
+                r5.bad('background-excludes-scheduled', 'execute_background_programs shape not recognised', loc=fn.loc(0))
+            else:
+                r5.bad('background-excludes-scheduled', 'a program associated with a task can also run as a background program (the filter does not keep exactly the unscheduled programs)', loc=fn.loc(0))
     else:
         r5.bad('anchor-missing|background', 'background program functions not found')
     et = fx.fns.get(CY + 'execute_task')
